@@ -3,6 +3,7 @@
 package main
 
 import (
+	"os"
 	"encoding/json"
 	"fmt"
 	"runtime"
@@ -290,7 +291,7 @@ type AgedSpec struct {
 	Eval  func(w any, v []int) (clause, detail string)
 }
 
-const agedMaxCases = 3000
+const agedMaxCases = 100000
 
 type AgedCase struct {
 	Group   string            `json:"group"`
@@ -321,30 +322,43 @@ func (a *AgedSpec) Run(c *Ctx) {
 			dom[i] = f.Quick
 		}
 	}
+	// two passes over the product: the first fixes the order of the groups (first appearance), the
+	// second collects the vectors of the groups this worker owns only
 	groups := map[string][][]int{}
 	var order []string
-	v := make([]int, n)
-	for {
-		if s.Valid == nil || s.Valid(v) {
-			if k := a.Group(v); k != "" {
-				if _, ok := groups[k]; !ok {
-					order = append(order, k)
+	index := map[string]int{}
+	enumerate := func(visit func(v []int, k string)) {
+		v := make([]int, n)
+		for {
+			if s.Valid == nil || s.Valid(v) {
+				if k := a.Group(v); k != "" {
+					visit(v, k)
 				}
-				groups[k] = append(groups[k], append([]int(nil), v...))
 			}
-		}
-		i := n - 1
-		for ; i >= 0; i-- {
-			v[i]++
-			if v[i] < dom[i] {
+			i := n - 1
+			for ; i >= 0; i-- {
+				v[i]++
+				if v[i] < dom[i] {
+					break
+				}
+				v[i] = 0
+			}
+			if i < 0 {
 				break
 			}
-			v[i] = 0
-		}
-		if i < 0 {
-			break
 		}
 	}
+	enumerate(func(v []int, k string) {
+		if _, ok := index[k]; !ok {
+			index[k] = len(order)
+			order = append(order, k)
+		}
+	})
+	enumerate(func(v []int, k string) {
+		if c.Mine(int64(index[k])) {
+			groups[k] = append(groups[k], append([]int(nil), v...))
+		}
+	})
 	for gi, k := range order {
 		if !c.Mine(int64(gi)) {
 			continue
@@ -371,6 +385,12 @@ func (a *AgedSpec) Run(c *Ctx) {
 			c.Res.Executions++
 			c.Res.Nontrivial++
 			c.Count("aged_world_cases", 1)
+			if os_Getenv("VERIF_AGED_MEM") != "" && (i-start)%500 == 499 && c.Worker == 0 {
+				var ms runtime.MemStats
+				runtime.GC()
+				runtime.ReadMemStats(&ms)
+				fmt.Fprintf(os.Stderr, "aged-mem group=%s age=%d heap=%dMB goroutines=%d\n", k, i-start+1, ms.HeapAlloc>>20, runtime.NumGoroutine())
+			}
 			if cl == "" {
 				continue
 			}
